@@ -6734,3 +6734,273 @@ func ruleTableIteratorMarksItselfPositioned(c *Ctx, r *Reporter) {
 		r.OK(cons, c.FnPos(fn), "every exit has set the flag")
 	}
 }
+
+// ruleCopyHelpersKeepEmptyNonNil (round 11): the memtable stores a non-nil empty slice for the empty value precisely because
+// nil means "deleted" to every caller of Get. A copy helper written as append([]byte(nil), v...) returns nil for an
+// empty v: a key whose newest version is a put of the empty value reads as found-but-deleted, and the storage manager
+// answers not-found. In the module's []byte → []byte copy helpers the append-to-nil idiom is reported.
+func ruleCopyHelpersKeepEmptyNonNil(c *Ctx, r *Reporter) {
+	r.Rule("copy-helpers-keep-empty-non-nil", 1)
+	n := 0
+	for _, fn := range c.KevoFns {
+		if fn.Signature.Recv() != nil || fn.Parent() != nil || !strings.HasPrefix(strings.ToLower(fn.Name()), "copy") || !strings.HasPrefix(pkgOf(fn), "pkg/") {
+			continue
+		}
+		sig := fn.Signature
+		if sig.Params().Len() != 1 || sig.Results().Len() != 1 || sig.Params().At(0).Type().String() != "[]byte" || sig.Results().At(0).Type().String() != "[]byte" {
+			continue
+		}
+		n++
+		cons := FnName(fn)
+		var bad *ssa.Return
+		prm := ssa.Value(fn.Params[0])
+		isNilParam := func(cond ssa.Value) (bool, bool) {
+			v, trueIsNonNil, ok := nilTest(cond)
+			if !ok || v != prm {
+				return false, false
+			}
+			return !trueIsNonNil, trueIsNonNil
+		}
+		for _, ret := range Returns(fn) {
+			v := ReturnValue(ret, 0)
+			if call, ok := v.(*ssa.Call); ok {
+				if b, isB := call.Call.Value.(*ssa.Builtin); isB && b.Name() == "append" {
+					if k, isK := call.Call.Args[0].(*ssa.Const); isK && k.Value == nil {
+						bad = ret
+					}
+				}
+			}
+			// nil may be returned for a nil input only ("skip the allocation for an empty value" returns nil for empty too)
+			if k, isK := v.(*ssa.Const); isK && k.Value == nil && !GuardedBy(ret.Block(), isNilParam) {
+				bad = ret
+			}
+		}
+		r.Check(bad == nil, cons, c.FnPos(fn), "the copy of an empty slice is an empty, non-nil slice",
+			"the copy helper can return nil for an empty, non-nil input (append([]byte(nil), v...), or an explicit nil for len(v) == 0): callers treat a nil value as the deletion marker, so a key whose newest version is a put of the empty value reads as deleted (Get: not found) while iterators over the same table still show it live")
+	}
+	if n == 0 {
+		r.Undecided("pkg:[]byte copy helpers", "-", "no copy helper found")
+	}
+}
+
+// ruleSentinelErrorsMatchByIdentity (round 11): opening distinguishes 'no manifest' (create one with the defaults) from 'unreadable
+// manifest' (fail) with errors.Is against two sentinel values. That works because the sentinels are distinct plain
+// error values. A custom error type with an Is method matches by whatever the method says — by type, for one — and the
+// two cases collapse: a truncated MANIFEST is taken for a missing one and overwritten with defaults. No type of
+// pkg/config declares an Is(error) bool method.
+func ruleSentinelErrorsMatchByIdentity(c *Ctx, r *Reporter) {
+	r.Rule("config-sentinels-match-by-identity", 0)
+	n := 0
+	for _, fn := range c.KevoFns {
+		if pkgOf(fn) != "pkg/config" || fn.Name() != "Is" || fn.Signature.Recv() == nil {
+			continue
+		}
+		sig := fn.Signature
+		if sig.Params().Len() == 1 && isErrorType(sig.Params().At(0).Type()) && sig.Results().Len() == 1 && sig.Results().At(0).Type().String() == "bool" {
+			n++
+			r.Bad(FnName(fn), c.FnPos(fn), "an error type of pkg/config defines its own Is(error) bool: errors.Is against the package's sentinels no longer compares identities — 'manifest not found' and 'invalid manifest' can match each other, and NewEngineFacade then treats an unreadable MANIFEST as a missing one: it is overwritten with the defaults and the database opens with a configuration it was not created with")
+		}
+	}
+	if n == 0 {
+		r.OK("config:error-types", "-", "no error type of pkg/config overrides errors.Is matching")
+	}
+}
+
+// ruleCleanupForwardsConnectionID (round 11): the registry files every transaction under the connection id Begin was given
+// (the peer string, host:port). The service's CleanupConnection must hand the registry the id it received, unchanged: a
+// "normalised" id finds nothing, the clean-up returns silently and the abandoned transaction keeps the database lock.
+func ruleCleanupForwardsConnectionID(c *Ctx, r *Reporter) {
+	r.Rule("connection-cleanup-forwards-the-id-verbatim", 1)
+	fn := c.Func("pkg/grpc/service", "KevoServiceServer", "CleanupConnection")
+	cons := "service.KevoServiceServer.CleanupConnection"
+	if fn == nil || len(fn.Params) < 2 {
+		r.Unresolved(cons, "not found")
+		return
+	}
+	var calls []*ssa.Call
+	AllInstrs(fn, false, func(_ *ssa.Function, ins ssa.Instruction) {
+		if call, ok := ins.(*ssa.Call); ok && call.Call.IsInvoke() && call.Call.Method.Name() == "CleanupConnection" {
+			calls = append(calls, call)
+		}
+	})
+	if len(calls) == 0 {
+		r.Bad(cons, c.FnPos(fn), "the service's connection clean-up no longer reaches the registry's CleanupConnection")
+		return
+	}
+	ok := true
+	for _, call := range calls {
+		if len(call.Call.Args) != 1 || call.Call.Args[0] != ssa.Value(fn.Params[1]) {
+			ok = false
+		}
+	}
+	r.Check(ok, cons, c.InsPos(calls[0]), "the registry is given the id the service received",
+		"the id handed to the registry's CleanupConnection is not the one the service received (trimmed, normalised, re-formatted): transactions are filed under the exact id Begin was given, so nothing is found, nothing is rolled back, and the abandoned transaction keeps the database lock until a timeout happens to catch it")
+}
+
+// ruleTTLParamsLandInLikeNamedFields (round 11): a constructor with several parameters of one type is a copy-paste trap.
+// In transaction.NewManagerWithTTL a time.Duration parameter may only be stored into the field whose name matches it
+// (readWriteTTL → readWriteTxTTL, readOnlyTTL → readOnlyTxTTL, idle… → idle…): a slip leaves one limit at its default
+// and gives the other the wrong value, and the lifetime check, far away in the registry's sweep, never fires.
+func ruleTTLParamsLandInLikeNamedFields(c *Ctx, r *Reporter) {
+	r.Rule("ttl-parameters-land-in-like-named-fields", 1)
+	fn := c.Func("pkg/transaction", "", "NewManagerWithTTL")
+	cons := "transaction.NewManagerWithTTL"
+	if fn == nil {
+		r.Unresolved(cons, "not found")
+		return
+	}
+	norm := func(s string) string {
+		s = strings.ToLower(s)
+		s = strings.ReplaceAll(s, "tx", "")
+		s = strings.ReplaceAll(s, "timeout", "ttl")
+		return s
+	}
+	n := 0
+	var bad ssa.Instruction
+	what := ""
+	AllInstrs(fn, false, func(_ *ssa.Function, ins ssa.Instruction) {
+		st, ok := ins.(*ssa.Store)
+		if !ok {
+			return
+		}
+		p, isP := stripConv(st.Val).(*ssa.Parameter)
+		fv := fieldVarOf(st.Addr)
+		if !isP || fv == nil || !strings.HasSuffix(p.Type().String(), "time.Duration") {
+			return
+		}
+		n++
+		if norm(p.Name()) != norm(fv.Name()) {
+			bad, what = ins, p.Name()+" → "+fv.Name()
+		}
+	})
+	if n == 0 {
+		r.Undecided(cons, c.FnPos(fn), "no duration parameter stored to a field")
+		return
+	}
+	r.Check(bad == nil, cons, func() string {
+		if bad != nil {
+			return c.InsPos(bad)
+		}
+		return c.FnPos(fn)
+	}(), fmt.Sprintf("%d duration parameter(s), each stored to the like-named field", n),
+		"a lifetime parameter is stored into a field of another name ("+what+"): one limit silently keeps its default and the other gets the wrong value — the sweep compares a transaction's age with the wrong limit and an abandoned transaction outlives the configured lifetime, holding the database lock")
+}
+
+// ruleOlderLogFilesSkippedOnlyBelowStart (round 11): reading from sequence n yields the stored operations AT or after n. A rotated
+// file may be passed over only if its highest sequence is BELOW n; with `<=` (getSequenceBounds returns an inclusive
+// maximum) the operations stamped exactly n that sit at the end of a rotated file — a whole batch, if it was the last
+// thing written before the rotation — are missing.
+func ruleOlderLogFilesSkippedOnlyBelowStart(c *Ctx, r *Reporter) {
+	r.Rule("older-log-files-are-skipped-only-below-the-start", 0)
+	gb := c.Func("pkg/wal", "", "getSequenceBounds")
+	if gb == nil {
+		r.Unresolved("wal.getSequenceBounds", "not found")
+		return
+	}
+	n := 0
+	for _, fn := range c.KevoFns {
+		if pkgOf(fn) != "pkg/wal" || recvTypeName(fn) != "wal.WAL" || !strings.Contains(fn.Name(), "ntriesFrom") {
+			continue
+		}
+		isMax := func(v ssa.Value) bool {
+			ex, ok := stripConv(v).(*ssa.Extract)
+			if !ok || ex.Index != 1 {
+				return false
+			}
+			call, ok := ex.Tuple.(*ssa.Call)
+			return ok && call.Call.StaticCallee() == gb
+		}
+		isStart := func(v ssa.Value) bool {
+			p, ok := stripConv(v).(*ssa.Parameter)
+			return ok && strings.HasSuffix(p.Type().String(), "uint64")
+		}
+		AllInstrs(fn, false, func(_ *ssa.Function, ins ssa.Instruction) {
+			bo, ok := ins.(*ssa.BinOp)
+			if !ok {
+				return
+			}
+			var inclusive bool
+			switch {
+			case isMax(bo.X) && isStart(bo.Y):
+				n++
+				inclusive = bo.Op == token.LEQ || bo.Op == token.GTR // max <= n skips; max > n keeps (so max == n is skipped)
+			case isStart(bo.X) && isMax(bo.Y):
+				n++
+				inclusive = bo.Op == token.GEQ || bo.Op == token.LSS
+			default:
+				return
+			}
+			r.Check(!inclusive, FnName(fn)+":skip-by-bounds", c.InsPos(ins), "a rotated file is passed over only when its highest sequence is below the start",
+				"a rotated log file is passed over when its highest sequence is <= the requested start: the bound is inclusive, so the operations stamped exactly with the start sequence at the end of that file are not delivered — GetEntriesFrom(n) misses entries AT n (a whole batch, when it was the last write before a rotation)")
+		})
+	}
+	if n == 0 {
+		r.OK("wal.WAL.GetEntriesFrom:skip-by-bounds", "-", "no rotated file is skipped by its sequence bounds")
+	}
+}
+
+
+// ruleHeartbeatConfigUsedAsGiven (round 11): the heartbeat manager uses the caller's configuration as it is; the defaults replace
+// it only when there is none. Merging the caller's values INTO the defaults field by field cannot express `false`
+// for a flag whose default is true: a primary configured with SendEmptyResponses=false keeps sending keep-alives, each
+// successful send refreshes the session's activity, and the inactivity timeout never drops a replica that went silent.
+func ruleHeartbeatConfigUsedAsGiven(c *Ctx, r *Reporter) {
+	r.Rule("heartbeat-config-is-used-as-given", 1)
+	fn := c.Func("pkg/replication", "", "newHeartbeatManager")
+	cf := c.Field("pkg/replication", "heartbeatManager", "config")
+	cons := "replication.newHeartbeatManager:config"
+	if fn == nil || cf == nil {
+		r.Unresolved("replication.newHeartbeatManager / heartbeatManager.config", "not found")
+		return
+	}
+	var prm ssa.Value
+	for _, p := range fn.Params {
+		if strings.HasSuffix(p.Type().String(), "HeartbeatConfig") {
+			prm = p
+		}
+	}
+	var st *ssa.Store
+	AllInstrs(fn, false, func(_ *ssa.Function, ins ssa.Instruction) {
+		if s, ok := ins.(*ssa.Store); ok && fieldVarOf(s.Addr) == cf {
+			st = s
+		}
+	})
+	if prm == nil || st == nil {
+		r.Undecided(cons, c.FnPos(fn), "no configuration parameter or no store to heartbeatManager.config")
+		return
+	}
+	isNilCfg := func(cond ssa.Value) (bool, bool) {
+		v, trueIsNonNil, ok := nilTest(cond)
+		if !ok || v != prm {
+			return false, false
+		}
+		return !trueIsNonNil, trueIsNonNil
+	}
+	ok := true
+	var walk func(v ssa.Value, d int)
+	walk = func(v ssa.Value, d int) {
+		if d > 5 {
+			ok = false
+			return
+		}
+		switch x := v.(type) {
+		case *ssa.Phi:
+			for _, e := range x.Edges {
+				walk(e, d+1)
+			}
+		case *ssa.Parameter:
+			if v != prm {
+				ok = false
+			}
+		case *ssa.Call:
+			if x.Call.StaticCallee() == nil || !strings.HasPrefix(x.Call.StaticCallee().Name(), "Default") || !GuardedBy(x.Block(), isNilCfg) {
+				ok = false
+			}
+		default:
+			ok = false
+		}
+	}
+	walk(st.Val, 0)
+	r.Check(ok, cons, c.InsPos(st), "the manager keeps the caller's configuration, or the defaults when there is none",
+		"the heartbeat manager does not keep the caller's configuration as given (defaults used although a configuration was supplied, or merged with it field by field): a merge cannot express `false` for SendEmptyResponses, whose default is true — the primary goes on sending keep-alives, every successful send refreshes the session's activity, and a replica that stopped acknowledging is never dropped")
+}
